@@ -195,6 +195,9 @@ class AsyncSimpleClient:
                 await asyncio.wait_for(self.input_event.wait(),
                                        timeout=timeout)
             except asyncio.TimeoutError:
+                if self.input_buffer:
+                    # the event arrived just as the timeout expired
+                    break
                 raise TimeoutError()
             self.input_event.clear()
         return self.input_buffer.pop(0)
